@@ -33,11 +33,10 @@ mod verif_kani {
         }
     }
 
-    /// K-range (bounded stand-in for MemQueue::range): 2 records x 1-byte payloads at symbolic positions,
-    /// symbolic bounds of every kind; the iterator yields exactly the retained records inside the range, in order.
-    #[kani::proof]
-    #[kani::unwind(5)]
-    fn k_range() {
+    /// K-range-* (bounded stand-in for MemQueue::range): 2 records x 1-byte payloads at symbolic positions,
+    /// symbolic bound values, one harness per pair of bound kinds (Included / Excluded / Unbounded); the iterator
+    /// yields exactly the retained records inside the range, in order.
+    fn range_case(lb: Bound<u64>, hb: Bound<u64>) {
         let f = crate::rolling::FileNumber::default();
         let p0: u64 = kani::any();
         let p1: u64 = kani::any();
@@ -47,12 +46,6 @@ mod verif_kani {
         let mut q = MemQueue::with_next_position(p0);
         q.append_record(&f, p0, &[b0]).unwrap();
         q.append_record(&f, p1, &[b1]).unwrap();
-        let lo: u64 = kani::any();
-        let hi: u64 = kani::any();
-        let lk: u8 = kani::any();
-        let hk: u8 = kani::any();
-        let lb = match lk % 3 { 0 => Bound::Included(lo), 1 => Bound::Excluded(lo), _ => Bound::Unbounded };
-        let hb = match hk % 3 { 0 => Bound::Included(hi), 1 => Bound::Excluded(hi), _ => Bound::Unbounded };
         let inside = |p: u64| -> bool {
             (match lb { Bound::Included(l) => p >= l, Bound::Excluded(l) => p > l, Bound::Unbounded => true })
                 && (match hb { Bound::Included(h) => p <= h, Bound::Excluded(h) => p < h, Bound::Unbounded => true })
@@ -72,4 +65,13 @@ mod verif_kani {
         }
         assert!(it.next().is_none());
     }
+    #[kani::proof] #[kani::unwind(5)] fn k_range_ii() { range_case(Bound::Included(kani::any()), Bound::Included(kani::any())); }
+    #[kani::proof] #[kani::unwind(5)] fn k_range_ie() { range_case(Bound::Included(kani::any()), Bound::Excluded(kani::any())); }
+    #[kani::proof] #[kani::unwind(5)] fn k_range_iu() { range_case(Bound::Included(kani::any()), Bound::Unbounded); }
+    #[kani::proof] #[kani::unwind(5)] fn k_range_ei() { range_case(Bound::Excluded(kani::any()), Bound::Included(kani::any())); }
+    #[kani::proof] #[kani::unwind(5)] fn k_range_ee() { range_case(Bound::Excluded(kani::any()), Bound::Excluded(kani::any())); }
+    #[kani::proof] #[kani::unwind(5)] fn k_range_eu() { range_case(Bound::Excluded(kani::any()), Bound::Unbounded); }
+    #[kani::proof] #[kani::unwind(5)] fn k_range_ui() { range_case(Bound::Unbounded, Bound::Included(kani::any())); }
+    #[kani::proof] #[kani::unwind(5)] fn k_range_ue() { range_case(Bound::Unbounded, Bound::Excluded(kani::any())); }
+    #[kani::proof] #[kani::unwind(5)] fn k_range_uu() { range_case(Bound::Unbounded, Bound::Unbounded); }
 }
